@@ -212,7 +212,7 @@ def scenario(ch, cfg):
             st = kvs.KeyValueStorage(ROOT, max_memory=lim)
             klong._context[KGSym("kvs")] = st
             if state["limit"] is not None and lim != state["limit"]:
-                stats["probe_store_opened_again_with_another_limit", "probe_table_without_rows_stored"] += 1
+                stats["probe_store_opened_again_with_another_limit"] += 1
         else:
             lim = limit
             klong(f'kvs::.kvs("{ROOT}")')
